@@ -768,6 +768,13 @@ theorem shape_feature_data_setter (g : Graph) (p : Path) (t : Option Nat) (o : L
     setRole g p "data" t = (execFeat o.key b t 12 Gen.featureDataBody g none).map (·.1) :=
   setRole_data_eq g p t o b ho hk hb
 
+/-- `H5Group.create_link` as it stands in `nixio/hdf5/h5group.py`: an entry of that name is dropped, then the name is
+bound to the TARGET NODE ITSELF — the model's `createLinkIn` on every graph (a copy of the target, a link to something
+looked up by name or id, or keeping a stale entry would not be this) -/
+theorem shape_create_link (g : Graph) (grp : Nat) (name : String) (t : Nat) :
+    execCreateLink grp name t Gen.createLinkBody g = createLinkIn g grp name t := by
+  simp only [Gen.createLinkBody, execCreateLink, Store.createLinkIn]
+
 /-- `extend` is all or nothing: it succeeds iff EVERY item passes `_accept` in the unchanged graph; otherwise the
 call is refused and (the state being what the refused call leaves) nothing was linked -/
 theorem extend_all_or_nothing (g : Graph) (c : Cont) (keys : List Key)
